@@ -100,6 +100,9 @@ class Hooks:
     def any_method(self, eng, st, recv, name, args, kwargs):
         raise Unsupported(f"method {name} of an arbitrary value")
 
+    def pseudo_method(self, eng, st, recv, name, args, kwargs):
+        raise Unsupported(f"method {name} of {recv!r}")
+
     def len_of(self, eng, st, v):
         raise Unsupported(f"len({v!r})")
 
